@@ -799,8 +799,8 @@ CONFIGS = ([("Input", f) for f in INPUT_FLAGS] + [("Nonblocking", {}), ("Termmod
            ("Cbreak", {}), ("ReplacedSigIntHandler", {})] +
            [("FullscreenWindow", dict(hide_cursor=h)) for h in (True, False)] +
            [("CursorAwareWindow", dict(hide_cursor=h, keep_last_line=k)) for h in (True, False) for k in (False, True)])
-INITIALS_QUICK = [[], ["nonblock"], ["append", "noecho"], ["vmin", "startstop"], ["wakeup"], ["handler_record"], ["raw", "handler_ign"]]
-INITIALS_MORE = [["noixon", "append", "nonblock"], ["cbreak"], ["handler_raise", "wakeup", "noecho"], ["handler_dfl"], ["startstop", "nonblock"]]
+INITIALS_QUICK = [[], ["nonblock"], ["append", "noecho"], ["vmin", "startstop"], ["wakeup"], ["handler_record"], ["raw", "handler_ign"], ["handler_dfl"]]
+INITIALS_MORE = [["noixon", "append", "nonblock"], ["cbreak"], ["handler_raise", "wakeup", "noecho"], ["startstop", "nonblock"]]
 
 
 def _allowed(name, initial, thread):
@@ -961,7 +961,7 @@ def _inputs(case, component, clause, detail=""):
 SUITES = [
     ("C12.single", ("single",), "every context (Input x sigint_event x disable_terminal_start_stop, Nonblocking, Termmode x2, Cbreak, "
      "ReplacedSigIntHandler, FullscreenWindow x hide_cursor, CursorAwareWindow x hide_cursor x keep_last_line) x initial states (plain, "
-     "O_NONBLOCK, O_APPEND+echo off, VMIN=3+own start/stop characters, pre-set wake-up descriptor, own SIGINT handler, raw+SIG_IGN, seeded random "
+     "O_NONBLOCK, O_APPEND+echo off, VMIN=3+own start/stop characters, pre-set wake-up descriptor, own SIGINT handler, raw+SIG_IGN, SIG_DFL, seeded random "
      "tty attribute sets) x main / worker thread: left normally and through Boom / KeyboardInterrupt raised after every prefix of a scripted "
      "body (requests with timeout 0, typed keys, pastes, event/scheduled/thread-safe trigger creation, renders smaller/equal/larger than the "
      "screen, cursor queries)"),
